@@ -7,6 +7,7 @@ package rtw
 
 import (
 	"bytes"
+	"fmt"
 	"context"
 	"io"
 	"math/rand"
@@ -31,6 +32,7 @@ import (
 	sdk "github.com/cosmos/cosmos-sdk/types"
 	authtypes "github.com/cosmos/cosmos-sdk/x/auth/types"
 	banktypes "github.com/cosmos/cosmos-sdk/x/bank/types"
+	paramstypes "github.com/cosmos/cosmos-sdk/x/params/types"
 	"github.com/cosmos/ibc-go/v7/testing/mock"
 	"github.com/spf13/cobra"
 	"github.com/spf13/pflag"
@@ -39,6 +41,7 @@ import (
 	undcmd "github.com/unification-com/mainchain/cmd/und/cmd"
 	undtypes "github.com/unification-com/mainchain/types"
 	beacontypes "github.com/unification-com/mainchain/x/beacon/types"
+	enttypes "github.com/unification-com/mainchain/x/enterprise/types"
 	wrktypes "github.com/unification-com/mainchain/x/wrkchain/types"
 )
 
@@ -354,4 +357,90 @@ func Printed() string {
 		return ""
 	}
 	return printed.String()
+}
+
+// ---- upgrade / migration wiring (C16) ----
+
+// ModuleLegacySubspace: the name of the x/params subspace the module's AppModule was constructed
+// with (the source of its 2->3 parameter migration). Engine: the constant of the
+// app.GetSubspace(...) call that feeds <module>.NewAppModule in app.NewApp; natively: the
+// (unexported) legacySubspace field of the module registered with the real module manager.
+func ModuleLegacySubspace(module string) string {
+	m, ok := realApp().ModuleManager.Modules[module]
+	if !ok {
+		return "no-such-module"
+	}
+	v := reflect.ValueOf(m)
+	if v.Kind() == reflect.Ptr {
+		v = v.Elem()
+	}
+	nv := reflect.New(v.Type()).Elem()
+	nv.Set(v)
+	f := nv.FieldByName("legacySubspace")
+	if !f.IsValid() {
+		return "no-legacy-subspace-field"
+	}
+	f = reflect.NewAt(f.Type(), unsafe.Pointer(f.UnsafeAddr())).Elem()
+	if ss, ok := f.Interface().(paramstypes.Subspace); ok {
+		return ss.Name()
+	}
+	return "not-a-params-subspace"
+}
+
+// StaticCallConstArgs: SSA fact (constant arguments of a call), not available natively.
+func StaticCallConstArgs(fn, calleeSubstr string) []string { return nil }
+
+// ProbeUpgradeMigration runs the real module manager's migrations for `module` from consensus
+// version 2 on the real application: the module's x/params subspace is given distinctive legacy
+// parameters, the parameters in the module store are removed, RunMigrations is called with the
+// module at version 2, and the keeper must then read exactly the legacy parameters. Returns "ok"
+// or what went wrong. The state changes are made on a cached context and discarded.
+func ProbeUpgradeMigration(module string) (res string) {
+	defer func() {
+		if r := recover(); r != nil {
+			res = fmt.Sprintf("panic: %v", r)
+		}
+	}()
+	a := probe().a
+	// the check state (the deliver state does not exist between blocks); writes go to a cache
+	ctx := a.BaseApp.NewContext(true, tmproto.Header{Height: a.LastBlockHeight() + 1})
+	ctx, _ = ctx.CacheContext()
+	store := ctx.KVStore(a.GetKey(module))
+	ss := a.GetSubspace(module)
+	wl := wrktypes.NewParams(1101, 1102, 1103, "nund", 1104, 1105)
+	bl := beacontypes.NewParams(2101, 2102, 2103, "nund", 2104, 2105)
+	el := enttypes.NewParams("nund", 1, 3101, sdk.AccAddress(probe().privs[0].PubKey().Address()).String())
+	switch module {
+	case "wrkchain":
+		ss.SetParamSet(ctx, &wl)
+		store.Delete(wrktypes.ParamsKey)
+	case "beacon":
+		ss.SetParamSet(ctx, &bl)
+		store.Delete(beacontypes.ParamsKey)
+	case "enterprise":
+		ss.SetParamSet(ctx, &el)
+		store.Delete(enttypes.ParamsKey)
+	default:
+		return "unknown module"
+	}
+	vm := a.ModuleManager.GetVersionMap()
+	vm[module] = 2
+	if _, err := a.ModuleManager.RunMigrations(ctx, a.Configurator(), vm); err != nil {
+		return "error: " + err.Error()
+	}
+	switch module {
+	case "wrkchain":
+		if a.WrkchainKeeper.GetParams(ctx) != wl {
+			return "wrkchain parameters after the migration differ from the legacy ones"
+		}
+	case "beacon":
+		if a.BeaconKeeper.GetParams(ctx) != bl {
+			return "beacon parameters after the migration differ from the legacy ones"
+		}
+	case "enterprise":
+		if a.EnterpriseKeeper.GetParams(ctx) != el {
+			return "enterprise parameters after the migration differ from the legacy ones"
+		}
+	}
+	return "ok"
 }
